@@ -228,6 +228,13 @@ def run(ctx):
     # \xff / U+FFFD / \xfe a whole-table delete must be refused and change nothing, or delete exactly its table
     iso_stage(ctx, zr, "deltable-nonutf8-strict", "pebble", "local", ["-segments", "4", "-len", "60", "-tables", "8"],
               stats, samples)
+    # partial-range DeleteTableRange [start, end) with start / end equal to existing keys of every type: focused stage on
+    # worlds with equal-length key names (open finding C12-delrange-partial-length-order is about the others)
+    iso_stage(ctx, zr, "delrange-focus", "pebble", "local", ["-segments", "10" if q else "80", "-len", "70", "-types", "5", "-expire=false",
+                                                             "-delrange-w", "12", "-keypool", "0"], stats, samples)
+    iso_stage(ctx, zr, "isolate-delrange-anylen", "pebble", "local", ["-segments", "6", "-len", "70", "-types", "5", "-expire=false",
+                                                                      "-delrange-w", "12", "-delrange-anylen"], stats, samples,
+              expect="C12-delrange-partial-length-order")
     iso_stage(ctx, zr, "isolate-deltable-ext", "pebble", "local", ["-segments", "4", "-len", "60", "-deltable-ext"], stats, samples,
               expect="C12-deltable-skips-bitmap-json-hll")
     iso_stage(ctx, zr, "isolate-mem-expiry", "mem", "local", ["-segments", "2", "-len", "20", "-burst"], stats, samples,
@@ -284,6 +291,10 @@ def run(ctx):
         "prefix-length indexes, offsets / limits and HIDX through the server are not driven)",
         "sorted-set lexicographic range commands (ZRANGEBYLEX / ZLEXCOUNT / ZREMRANGEBYLEX) are issued only when all members of "
         "the set have one score (Redis leaves the other case undefined); bounds are the sub-key names incl. the empty one, and '-' / '+'",
+        "multi-key commands on kv tuples (MGET, EXISTS, DEL with several keys: existing, absent and invalid names - no separator, "
+        "empty table, over-long - in every position; MSET with valid names only, because a failing MSET leaves earlier pairs in "
+        "the open write batch, which is C11's subject); partial-range DeleteTableRange [start, end) with bounds equal to keys of "
+        "the world (end exclusive; scope kv / hash / list / set / zset), only in worlds with equal-length key names (open finding)",
         "whole-table delete is checked with DeleteTableRange.CheckValid and built exactly like KVNode.DeleteRange builds its "
         "proposal, then applied through the state machine; a refused delete (reply -998) must change nothing",
         "mem engine: prefix-free name pools only (recorded C20 finding on radix iterators), no expiry pass (recorded finding)",
